@@ -9,6 +9,7 @@ def is_dyadic(x):
     return d & (d - 1) == 0 and d <= 2 ** 20
 
 class C06(Prop):
+    layouts = True
     translators = ['flow', 'bip']   # the matching routine birkhoff_von_neumann calls (flow.py) regenerated from the source on every run
     pid = "C06"
     sources = ["socialchoicekit/bistochastic.py", "socialchoicekit/flow.py"]
@@ -70,8 +71,8 @@ class C06(Prop):
             from socialchoicekit.profile_utils import StrictCompleteProfile
             return np.array(SimultaneousEating(zero_indexed=True).bistochastic(StrictCompleteProfile.of(np.array(case["prof"])), np.array(case["speeds"], dtype=float)))
         if case.get("itype"):
-            return np.array(case["X"]).astype(int)
-        return np.array(case["X"], dtype=float)
+            return lay(np.array(case["X"]).astype(int), case.get("layout"))
+        return lay(np.array(case["X"], dtype=float), case.get("layout"))
 
     def run(self, case):
         import socialchoicekit.flow as F
